@@ -207,6 +207,45 @@ def boolTryFromTerm : Term → Except Unit Bool := tryFromTermWith Gen.Native.tr
 def f64TryFromTerm (parse : Str → Except Unit F64) : Term → Except Unit F64 :=
   tryFromTermWith Gen.Native.tryF64 parse
 
+/-! ### the same skeleton over what the `Term` TRAIT lets it observe (any implementation of the trait,
+not only the well-formed terms of `SophiaModel.Term`): the partial operation `term.datatype().unwrap()`
+is an explicit outcome -/
+
+/-- what `try_from_term` reads of a term: `lexical_form()` and `datatype()` (IRI string). `kind()` is
+never consulted by the code. -/
+structure View where
+  lex : Option Str
+  dt : Option Str
+  deriving Repr, DecidableEq
+
+/-- the view of a well-formed term -/
+def viewOf (t : Term) : View := ⟨lexicalForm t, t.datatype⟩
+
+/-- result of a Rust call that may unwind -/
+inductive Outcome (ε α : Type) where
+  | ok (a : α)
+  | err (e : ε)
+  | panic
+  deriving Repr, DecidableEq
+
+def Outcome.ofExcept {ε α : Type} : Except ε α → Outcome ε α
+  | .ok a => .ok a
+  | .error e => .err e
+
+/-- `try_from_term` on an arbitrary `Term` implementation.  The first disjunct of the whitelist test
+evaluates `term.datatype().unwrap()` (the extractor guarantees a non-empty whitelist), so a term that
+answers `lexical_form()` but not `datatype()` unwinds; `str::parse` itself never does. -/
+def tryFromViewWith {ε α : Type} (cfg : Gen.Native.TryFrom) (parse : Str → Except ε α) (v : View) :
+    Outcome ε α :=
+  match v.lex with
+  | some lex =>
+    match v.dt with
+    | none => .panic
+    | some d =>
+      if cfg.whitelist.any (fun n => d == xsdIri n) then .ofExcept (parse lex)
+      else .ofExcept (parse cfg.wrongDatatype)
+  | none => .ofExcept (parse cfg.notALiteral)
+
 /-! ## XSD lexical spaces (XSD 1.1 part 2, hand transcription) and lexical-to-value mappings -/
 
 namespace Xsd
@@ -296,6 +335,16 @@ def realValued : List Str :=
 def boundsOf (name : Str) : Option (Option Int × Option Int) :=
   (integerDerived.find? (fun e => e.1 == name)).map (·.2)
 
+/-- datatypes a conversion to a native INTEGER type may accept without ever returning a wrong value:
+those whose lexical forms that `from_str_radix` can read (`L(xsd:integer)`) denote, under the datatype's
+own lexical mapping, the same integer — the integer-derived types and `xsd:decimal` (`"5"^^xsd:decimal`
+is the integer 5; `"5.0"` is refused by the integer parser, an error, which the property allows) -/
+def intCompatible : List (Str × Option Int × Option Int) :=
+  integerDerived ++ [("decimal".toList, none, none)]
+
+def compatBoundsOf (name : Str) : Option (Option Int × Option Int) :=
+  (intCompatible.find? (fun e => e.1 == name)).map (·.2)
+
 /-- does the value space with bounds `b` contain a value of `[lo, hi]`? -/
 def intersects (b : Option Int × Option Int) (lo hi : Int) : Bool :=
   (match b.1 with | none => true | some l => decide (l ≤ hi)) &&
@@ -338,22 +387,33 @@ def nearest (num den : Nat) : Nat :=
   else if e' > 1023 then 0x7ff0000000000000              -- overflow to infinity
   else ((e' + 1023).toNat) * 2 ^ 52 + (m - 2 ^ 52)
 
-/-- value denoted by a member of `Xsd.doubleNumeric` as binary64 bits (round to nearest even) -/
-def doubleOfNumeric (s : Str) : F64 :=
-  let (neg, s) := match s with
-    | '-' :: r => (true, r)
-    | '+' :: r => (false, r)
-    | r => (false, r)
-  let (mant, ex) := splitAt (fun c => c == 'e' || c == 'E') s
+/-- sign-stripped body of a numeric form -/
+def unsignedBody : Str → Bool × Str
+  | '-' :: r => (true, r)
+  | '+' :: r => (false, r)
+  | r => (false, r)
+
+/-- the exponent of a numeric form: (written with `-`?, its digits); `(false, [])` if there is none -/
+def expPart (s : Str) : Bool × Str :=
+  match ((splitAt (fun c => c == 'e' || c == 'E') (unsignedBody s).2).2).drop 1 with
+  | '-' :: r => (true, r)
+  | '+' :: r => (false, r)
+  | r => (false, r)
+
+/-- value denoted by a member of `Xsd.doubleNumeric` as binary64 bits (round to nearest even);
+`expOf` reads the digits of the exponent (`natOfDigits` for the XSD lexical mapping) -/
+def doubleOfNumericWith (expOf : Str → Nat) (s : Str) : F64 :=
+  let neg := (unsignedBody s).1
+  let mant := (splitAt (fun c => c == 'e' || c == 'E') (unsignedBody s).2).1
   let (ip, fp) := splitAt (· == '.') mant
   let fp := fp.drop 1
-  let exv : Int := match ex.drop 1 with
-    | '-' :: r => - (natOfDigits r : Int)
-    | '+' :: r => natOfDigits r
-    | r => natOfDigits r
-  let digits := (ip ++ fp).dropWhile (· == '0')
+  let exv : Int := if (expPart s).1 then - (expOf (expPart s).2 : Int) else expOf (expPart s).2
+  -- significant digits: leading zeros dropped; trailing zeros moved into the exponent (same value,
+  -- keeps the arithmetic small on zero-padded forms)
+  let digits0 := (ip ++ fp).dropWhile (· == '0')
+  let digits := (digits0.reverse.dropWhile (· == '0')).reverse
   let m := natOfDigits digits
-  let e10 : Int := exv - fp.length
+  let e10 : Int := exv - fp.length + (digits0.length - digits.length : Nat)
   let signB : Nat := if neg then 2 ^ 63 else 0
   if m == 0 then signB
   else
@@ -364,6 +424,9 @@ def doubleOfNumeric (s : Str) : F64 :=
     else
       let bits := if e10 ≥ 0 then nearest (m * 10 ^ e10.toNat) 1 else nearest m (10 ^ (-e10).toNat)
       signB + bits
+
+/-- the XSD lexical-to-value mapping on the numeric forms (exponent read exactly) -/
+def doubleOfNumeric (s : Str) : F64 := doubleOfNumericWith natOfDigits s
 
 /-- value denoted by a member of `xsd:double`'s lexical space: bits, or `none` for NaN (any NaN) -/
 def doubleVal (s : Str) : Option (Option F64) :=
@@ -395,10 +458,22 @@ def nanRe : Re := seqs [opt Xsd.sign, ci "nan"]
 inductive Err | empty | invalid
   deriving Repr, DecidableEq
 
+/-- `parse_scientific`: the exponent's digits are accumulated only while the running value is below
+`0x10000`; later digits are DROPPED (not saturated), so an exponent of 655360 or more — whose first five
+digits already reach 65536 — is read as a much smaller number:
+```
+s.parse_digits(|digit| { if exp_num < 0x10000 { exp_num = 10 * exp_num + digit as i64; } });
+``` -/
+def expClamped (ds : Str) : Nat :=
+  ds.foldl (fun e c => if e < 0x10000 then e * 10 + (c.toNat - 48) else e) 0
+
+/-- smallest exponent magnitude that `expClamped` misreads -/
+def expClampLimit : Nat := 655360
+
 /-- result: bit pattern (NaN: the quiet NaN with the sign that was written) -/
 def parse (s : Str) : Except Err F64 :=
   if s = [] then .error .empty
-  else if Xsd.matchesS numeric s then .ok (Dec.doubleOfNumeric s)
+  else if Xsd.matchesS numeric s then .ok (Dec.doubleOfNumericWith expClamped s)
   else
     let neg := s.head? == some '-'
     if Xsd.matchesS infRe s then .ok (if neg then F64.negInf else F64.posInf)
